@@ -837,7 +837,7 @@ Definition totp_confirm_post : M unit :=
         codes <- generate_recovery_codes ;;
         crypted <- bcrypt_codes codes ;;
         let u' := u <| u_totp := secret |> <| u_recovery := encode_codes crypted |>
-                   <| u_totp_last := (if c_onetime cfg then code else u_totp_last u) |> in
+                   <| u_totp_last := (if c_onetime cfg then trim_space code else u_totp_last u) |> in
         store_back u' shared ;;;
         st_save u' ;;;
         del_session k_totp_secret ;;; del_session k_2fa_authed ;;;
@@ -876,15 +876,18 @@ Definition totp_validate : M (user * bool * option tstatus) :=
     | None => ret (u, shared, Some TInvalid)
     end
   else
-    let input := aget f_code vals in
+    (* the code is compared and remembered as the validator reads it: without surrounding white space
+       (the oracle is asked about the submitted text; the validator trims it itself) *)
+    let raw := aget f_code vals in
+    let input := trim_space raw in
     if c_onetime cfg then
       (if beqb (u_totp_last u) input then ret (u, shared, Some TRepeated) else
        let u' := u <| u_totp_last := input |> in
        store_back u' shared ;;;
-       if negb (totp_ok (u_totp u) input) then ret (u', shared, Some TInvalid)
+       if negb (totp_ok (u_totp u) raw) then ret (u', shared, Some TInvalid)
        else ret (u', shared, Some TSuccess))
     else
-      (if negb (totp_ok (u_totp u) input) then ret (u, shared, Some TInvalid)
+      (if negb (totp_ok (u_totp u) raw) then ret (u, shared, Some TInvalid)
        else ret (u, shared, Some TSuccess)).
 
 Definition totp_remove_post : M unit :=
